@@ -1,11 +1,184 @@
 (* C04 — repr output evaluates back to an equal value.
-   Property theorems only; every proof is [exact <lemma>]. *)
-From verif Require Import lib.Base model.C03 model.C08_Value model.C04 proofs.C04_proofs.
+   Property theorems only; every proof is [exact <lemma>].
+
+   Model (model/C04.v): [repr] = vals.Repr with the list / map builders, their
+   indentation and the sort of map entries by vals.CmpTotal ([cmp_total4], an
+   insertion sort as sort.Slice runs it for at most 12 entries); [read_val] =
+   the parser + evaluator on exactly the expression language repr prints (list
+   and map literals, white space, (num X), $nil $true $false, string words
+   through C03's reader; anything else = ROther).  Maps are association lists
+   in the iteration order of the hash map.
+   is_print = unicode.IsPrint (any table); pf / fmtF / fmtE = strconv's
+   ParseFloat / FormatFloat 'f' / 'e' under C05's contract [contract_S]; rk =
+   the order of the Go type descriptors (any).
+   okv v  : v is built from nil, booleans, byte strings, numbers in canonical
+            representation, lists and maps.
+   wfv v  : float patterns are 64-bit and map keys are pairwise not eq, a NaN
+            counting as equal to a NaN.
+   eqn a b: eq (vals.Equal) where every NaN is taken as one self-equal token,
+            i.e. "eq, and a NaN reads back as a NaN".
+   term_ok ctx t : the text after the expression is empty or starts with a
+            rune that cannot start a primary in that context (white space,
+            closing bracket, = after a map key ...).
+   rdepth v: the fuel the reader needs (nesting depth plus widths). *)
+From verif Require Import lib.Base lib.Utf8 model.C03 proofs.C03_proofs model.C08_Value model.C04
+  proofs.C04_proofs proofs.C04_text proofs.C04_roundtrip proofs.C04_sem proofs.C04_order proofs.C04_main.
+From verif Require model.C05 proofs.C05_float_proofs.
+From Coq Require Import Permutation.
 Open Scope N_scope.
 
+(* THE PROPERTY, part 1: for every value of any depth and width, every indent
+   (negative = single line, >= 0 = pretty-printed from that level), in every
+   expression context, followed by any terminator: the text repr prints is read
+   back as exactly one value, nothing of it is left over, and that value is eq
+   to the original with NaN compared by kind. *)
+Theorem C04_repr_roundtrip : forall is_print pf fmtF fmtE rk,
+  C05_float_proofs.contract_S pf fmtF fmtE ->
+  forall v, okv v = true -> wfv v ->
+  forall ind ctx t fuel, (rdepth v <= fuel)%nat -> term_ok is_print ctx t ->
+  exists v', read_val is_print pf fuel ctx (repr is_print fmtF fmtE rk v ind ++ t) = ROk v' t
+             /\ eqn v v' = true.
+Proof. exact repr_roundtrip. Qed.
+Print Assumptions C04_repr_roundtrip.
+
+(* What exactly comes back: [norm v] — lists as plain lists, map entries in
+   printed order, NaN as ParseFloat's NaN, everything else bit for bit.  No
+   hypothesis on map keys is needed for this half. *)
+Theorem C04_repr_reads_back : forall is_print pf fmtF fmtE rk,
+  C05_float_proofs.contract_S pf fmtF fmtE ->
+  forall v, okv v = true ->
+  forall ind ctx t fuel, (rdepth v <= fuel)%nat -> term_ok is_print ctx t ->
+  read_val is_print pf fuel ctx (repr is_print fmtF fmtE rk v ind ++ t) = ROk (norm pf rk v) t.
+Proof. exact repr_reads_back. Qed.
+Print Assumptions C04_repr_reads_back.
+
+(* ... and that value is eq to the original (NaN by kind), for maps of any size *)
+Theorem C04_norm_is_eq : forall pf rk,
+  (exists b', pf C05.sNaN = Some b' /\ C05.is_nan b' = true) ->
+  forall v, okv v = true -> wfv v ->
+  wfv (norm pf rk v) /\ eqn v (norm pf rk v) = true.
+Proof. exact norm_good. Qed.
+Print Assumptions C04_norm_is_eq.
+
+(* The text is exactly one expression: read as the whole argument, nothing is
+   left. *)
+Theorem C04_repr_single_expression : forall is_print pf fmtF fmtE rk,
+  C05_float_proofs.contract_S pf fmtF fmtE ->
+  forall v, okv v = true -> forall ind fuel, (rdepth v <= fuel)%nat ->
+  read_val is_print pf fuel CNormal (repr is_print fmtF fmtE rk v ind ++ []) = ROk (norm pf rk v) [].
+Proof. exact repr_single_expression. Qed.
+Print Assumptions C04_repr_single_expression.
+
+(* Every number keeps its exact or inexact type: int, big int and rational come
+   back identical, a float bit for bit, a NaN as a NaN; nothing else becomes a
+   number. *)
+Theorem C04_repr_keeps_exactness : forall is_print pf fmtF fmtE rk,
+  C05_float_proofs.contract_S pf fmtF fmtE ->
+  forall v, okv v = true ->
+  forall ind ctx t fuel, (rdepth v <= fuel)%nat -> term_ok is_print ctx t ->
+  exists v', read_val is_print pf fuel ctx (repr is_print fmtF fmtE rk v ind ++ t) = ROk v' t
+   /\ num_type v' = num_type v
+   /\ match v with
+      | VInt _ | VBig _ | VRat _ => v' = v
+      | VFloat b => if C05.is_nan b then exists b', v' = VFloat b' /\ C05.is_nan b' = true else v' = v
+      | _ => True
+      end.
+Proof. exact repr_keeps_exactness. Qed.
+Print Assumptions C04_repr_keeps_exactness.
+
+(* THE PROPERTY, part 2 — FULL STATEMENT:
+     forall entries es, every insertion order of es gives a map with the same
+     printed text:  Permutation m1 m2 -> repr (VMap m1) ind = repr (VMap m2) ind
+     for the iteration orders m1, m2 the hash map produces.
+   It is FALSE of the faithful model and of the code.  The two insertion orders
+   of the entries (num 0)=x, (num 0.0)=y, pushed through the trie model of
+   pkg/persistent/hashmap (model/C07.v) with vals.Hash and vals.Equal, give two
+   maps that are Equal and print differently (the keys tie under CmpTotal and
+   collide in all 32 hash bits, so they sit in one collision node in insertion
+   order and the sort leaves tied entries where they were): *)
+Theorem C04_repr_order_canonical_refuted :
+  exists es a b, map_of es = Some a /\ map_of (rev es) = Some b
+    /\ wfb a = true /\ wfb b = true /\ equal a b = true /\ repr0 a <> repr0 b.
+Proof. exact repr_order_refuted_w. Qed.
+Print Assumptions C04_repr_order_canonical_refuted.
+
+(* the same for the other planted witnesses; a tie without a hash collision
+   ((num 1) and (num 1.0)) is printed in one order *)
+Theorem C04_order_witnesses :
+  order_matters [(w_int0, VStr [120]); (w_flt0, VStr [121])] = true
+  /\ order_matters [(w_int, VStr [120]); (w_flt, VStr [121])] = true
+  /\ order_matters [(w_mapA, VStr [120]); (w_mapB, VStr [121])] = true
+  /\ order_matters [(w_lstA, VStr [120]); (w_lstB, VStr [121])] = true
+  /\ order_matters [(VInt 1, VStr [120]); (VFloat 4607182418800017408, VStr [121])] = false.
+Proof. exact order_matters_all. Qed.
+Print Assumptions C04_order_witnesses.
+
+(* the pairs the generator plants do tie under CmpTotal, are not Equal, and have
+   the same 32-bit Hash *)
+Theorem C04_planted_pairs_tie_and_collide :
+  tie_collide w_int0 w_flt0 = true /\ tie_collide w_int w_flt = true
+  /\ tie_collide w_mapA w_mapB = true /\ tie_collide w_lstA w_lstB = true.
+Proof. exact planted_pairs_tie_and_collide. Qed.
+Print Assumptions C04_planted_pairs_tie_and_collide.
+
+(* ... and it holds whenever no two entries tie: if CmpTotal is a strict linear
+   order on the keys present (StrictKeys: no two different entries compare
+   equal; greater flips to less; less is asymmetric and transitive), the text
+   is the same for every order in which the entries come out of the hash map,
+   for maps of every size, every indent. *)
+Theorem C04_repr_order_canonical_partial : forall is_print fmtF fmtE rk m1 m2 ind,
+  Permutation m1 m2 -> StrictKeys rk m1 ->
+  repr is_print fmtF fmtE rk (VMap m1) ind = repr is_print fmtF fmtE rk (VMap m2) ind.
+Proof. exact repr_order_canonical_partial. Qed.
+Print Assumptions C04_repr_order_canonical_partial.
+
+(* the sort itself: one result for all permutations of the input under a strict
+   linear order on the elements present *)
+Theorem C04_insertion_sort_canonical : forall (A : Type) (lt : A -> A -> bool) (P : A -> Prop),
+  (forall a b, P a -> P b -> lt a b = true \/ lt b a = true \/ a = b) ->
+  (forall a b, P a -> P b -> lt a b = true -> lt b a = false) ->
+  (forall a b c, P a -> P b -> P c -> lt a b = true -> lt b c = true -> lt a c = true) ->
+  forall l1 l2, Forall P l1 -> Permutation l1 l2 -> isort lt l1 = isort lt l2.
+Proof. exact (@isort_canonical). Qed.
+Print Assumptions C04_insertion_sort_canonical.
+
 (* The oracle evaluated on the implementation's observations states the
-   property. *)
+   property ... *)
 Theorem C04_oracle_sound : forall v res back go_eq text alts,
   check_C04 v res back go_eq text alts = true -> Spec_C04 v res back go_eq text alts.
 Proof. exact check_C04_sound. Qed.
 Print Assumptions C04_oracle_sound.
+
+(* ... and what the model predicts for the implementation passes it *)
+Theorem C04_model_passes_oracle : forall pf fmtF fmtE rk,
+  C05_float_proofs.contract_S pf fmtF fmtE ->
+  forall v text, okv v = true -> wfv v ->
+  check_C04 v resValue (norm pf rk v) true text [] = true.
+Proof. exact model_passes_oracle. Qed.
+Print Assumptions C04_model_passes_oracle.
+
+(* ---- non-vacuity: concrete texts through the executable model ---- *)
+From Coq Require Import String.
+Definition ex_pf (s : bytes) : option N :=
+  if bytes_eqb s (hx "302e35"%string) then Some 4602678819172646912          (* 0.5 *)
+  else if bytes_eqb s (hx "4e614e"%string) then Some 9221120237041090561      (* NaN *)
+  else None.
+Definition ex_F (b : N) : bytes := if b =? 4602678819172646912 then hx "302e35"%string else hx "4e614e"%string.
+Definition ex_v : value :=
+  VMap [(VStr (hx "6120627e"%string), VList false [VInt (-3); VRat (mkrat 1 3); VFloat 4602678819172646912]);
+        (VNil, VMap []); (VBool true, VStr []); (VFloat 9221120237041090562, VBig (2 ^ 70))].
+
+(* single line and pretty-printed, read back by read_expr (the whole argument);
+   the text is  [&$nil=[&] &$true='' &(num NaN)=(num 1180591620717411303424) &'a b~'=[(num -3) (num 1/3) (num 0.5)]]  *)
+Example C04_ex_roundtrip :
+  ReprPlain ascii_print ex_F ex_F rk0 ex_v
+    = hx "5b26246e696c3d5b265d202624747275653d27272026286e756d204e614e293d286e756d2031313830353931363230373137343131333033343234292026276120627e273d5b286e756d202d332920286e756d20312f332920286e756d20302e35295d5d"%string
+  /\ (exists v', read_expr ascii_print ex_pf (ReprPlain ascii_print ex_F ex_F rk0 ex_v) = EVal v' /\ eqn ex_v v' = true)
+  /\ (exists v', read_expr ascii_print ex_pf (repr ascii_print ex_F ex_F rk0 ex_v 0) = EVal v' /\ eqn ex_v v' = true)
+  (* the reader is no accept-everything function *)
+  /\ read_expr ascii_print ex_pf (hx "5b61205d5d"%string) = EAbstain            (* [a ]]  : text left over *)
+  /\ read_expr ascii_print ex_pf (hx "5b6120"%string) = EParseErr               (* [a    : unterminated *)
+  /\ read_expr ascii_print ex_pf (hx "5b26613d62205d"%string) = EVal (VMap [(VStr [97], VStr [98])])
+  /\ read_expr ascii_print ex_pf (hx "5b612026623d635d"%string) = EParseErr     (* elements and pairs *)
+  /\ read_expr ascii_print ex_pf (hx "286e756d20302e3529"%string) = EVal (VFloat 4602678819172646912).
+Proof. vm_compute. repeat split; eexists; split; reflexivity. Qed.
